@@ -61,11 +61,14 @@ class Obj:
 
 class T:
     """terminal node"""
-    __slots__ = ("text", "start", "end", "base", "m", "is_str", "sep")
+    __slots__ = ("text", "start", "end", "base", "m", "is_str", "sep", "gap", "mode", "lit")
 
-    def __init__(self, text, start, end, base=None, m=None, is_str=False):
+    def __init__(self, text, start, end, base=None, m=None, is_str=False, gap=None, mode=None, lit=None):
         self.text, self.start, self.end, self.base, self.m, self.is_str = text, start, end, base, m, is_str
         self.sep = False  # matched by the separator modifier of a repetition
+        self.gap = gap  # where whitespace/comment skipping in front of this terminal started
+        self.mode = mode  # (skipws, ws, eolterm) in force
+        self.lit = lit  # the grammar's string literal, for string matches
 
 
 class N:
@@ -207,6 +210,12 @@ class Interp:
         ws = cfg.get("ws")
         self.mode0 = (cfg.get("skipws", True), DEFAULT_WS if ws is None else ws, False)
 
+    def rx_plain(self, pat):
+        r = self.re_cache.get(("plain", pat))
+        if r is None:
+            r = self.re_cache[("plain", pat)] = re.compile(pat, re.MULTILINE)
+        return r
+
     def rx(self, pat):
         r = self.re_cache.get(pat)
         if r is None:
@@ -245,29 +254,35 @@ class Interp:
         raise Fail()
 
     def t_str(self, lit, p, mode):
+        p0 = p
         p = self.pre_terminal(p, mode)
         s = self.s
         frag = s[p:p + len(lit)]
         ok = (frag.lower() == lit.lower()) if self.ignore_case else (frag == lit)
-        kwd = self.autokwd and re.fullmatch(r"[^\d\W]\w*", lit, self.flags & re.IGNORECASE) is not None
+        kwd = self.autokwd and re.fullmatch(r"[^\d\W]\w*", lit) is not None
         if ok and kwd:
-            m = self.rx(re.escape(lit) if False else lit + r"\b").match(s, p)
+            # keyword-like literal under autokwd: it must end on a word boundary; the value is the text
+            # as written in the input (a regular-expression match)
+            m = self.rx(lit + r"\b").match(s, p)
             if not m:
                 ok = False
             else:
-                return p + len(m.group()), [T(m.group(), p, p + len(m.group()), is_str=True)]
+                return p + len(m.group()), [T(m.group(), p, p + len(m.group()), is_str=True, gap=p0, mode=mode, lit=lit)]
         if not ok:
             self.fail(p)
-        return p + len(lit), [T(lit, p, p + len(lit), is_str=True)]
+        # a string match yields the literal as spelled in the grammar
+        return p + len(lit), [T(lit, p, p + len(lit), is_str=True, gap=p0, mode=mode, lit=lit)]
 
     def t_re(self, pat, p, mode, base=None):
+        p0 = p
         p = self.pre_terminal(p, mode)
-        m = self.rx(pat).match(self.s, p)
+        # the built-in base types are not affected by ignore_case (only literals of the grammar are)
+        m = (self.rx_plain(pat) if base is not None else self.rx(pat)).match(self.s, p)
         if not m:
             self.fail(p)
         if m.end() == p:
             return p, []
-        return m.end(), [T(m.group(), p, m.end(), base=base, m=m)]
+        return m.end(), [T(m.group(), p, m.end(), base=base, m=m, gap=p0, mode=mode)]
 
     # -- expressions -------------------------------------------------------------------------
     def ev(self, e, p, mode):
